@@ -75,7 +75,7 @@ FMTS0 = (DEFAULT_FMT, DEFAULT_FMT)
 # classes with a `data_format` constructor argument and its DEFAULT in the QUANTIZED class (the harness' model of
 # the constructor signatures): QConv1D has the literal "channels_last" (as the stock Conv1D), every other one None =
 # `K.image_data_format()` at construction time — the same as the stock classes (QConv2D declared the literal
-# "channels_last" until /repo 22ba660, finding C11-qconv2d-default-data-format; a class whose default differs from
+# "channels_last" until /repo 6413fbe, finding C11-qconv2d-default-data-format; a class whose default differs from
 # its stock class again fails clause `ctor_default`, un-mirrored).
 HAS_DF = {"conv1d": "channels_last", "conv2d": None, "sepconv1d": None, "sepconv2d": None, "dwconv2d": None,
           "avgpool2d": None, "globalavgpool2d": None}
@@ -556,7 +556,7 @@ def gen_new(rng, tier):
                    data_format=df)
         geo.update(dict(groups=1) if cls == "conv1d" else dict(depth_multiplier=1 + i % 2))
         add(cls, geo, qsel(rng, SLOTS[cls], i, force_none=(i % 7 == 6)), [dict(length=ln, batch=b)], "rank")
-  # grouped causal channels_first: before /repo 035b3d2 the channel-axis pad of K.conv1d gave a legal (wrong)
+  # grouped causal channels_first: before /repo 6ddae0e the channel-axis pad of K.conv1d gave a legal (wrong)
   # grouped convolution here instead of an error
   for (f_, k_, d_, cin_) in ((6, 2, 2, 4), (3, 3, 2, 2)):
     i += 1
@@ -600,7 +600,7 @@ def gen_new(rng, tier):
   # ================================================================= format (appended: keeps the grid above unchanged)
   # QSeparableConv1D with an AUTO-scaled depthwise quantizer and a kernel whose positions differ in magnitude
   # (`skew_kernel`), under the three orders of the channels_first switch: a layer that hands anything but the
-  # STORED kernel to the quantizer (the kernel expanded to 4-D, defect repaired in /repo 5ab82ec) reduces the
+  # STORED kernel to the quantizer (the kernel expanded to 4-D, defect repaired in /repo 871ddb1) reduces the
   # scale over other axes and gets other values — deterministically, not only for lucky weights
   i = 0
   for oi, fm in enumerate(ORDERS):
@@ -944,7 +944,7 @@ def run_feedforward(G):
         if i >= len(W):
           quant.append(None if qs is None else qspec(qs, [], t))
           continue
-        # every layer quantizes its weights AS STORED (QSeparableConv1D too, since /repo 5ab82ec): a table
+        # every layer quantizes its weights AS STORED (QSeparableConv1D too, since /repo 871ddb1): a table
         # quantizer is given at the stored tensor only, so a layer that quantizes anything else is rejected
         quant.append(qspec(qs, [W[i]], t))
       line = {"op": "layer", "cls": cls, "cfg": cfg_of(G), "xs": [tj(xs[pos]) for pos in members],
@@ -1091,7 +1091,7 @@ def run_recurrent(G):
 
 def site_of(c):
   """label of the sites of the NINE defects repaired in /repo (32aca3c, 0736682, d2aee32, c93cc1b; fix round:
-  22ba660 is per object — `default-data-format` —, 035b3d2, c094292, 8b14f4d, 5ab82ec): all part of the generated
+  6413fbe is per object — `default-data-format` —, 6ddae0e, cefc317, 0a02ce1, 871ddb1): all part of the generated
   grid and judged like every other case (bit-for-bit ties, `runs`); a regression there is a VIOLATION reported
   under its own key"""
   g = c.geo
@@ -1103,7 +1103,7 @@ def site_of(c):
     return "causal-channels-first"
   if c.cls == "sepconv1d" and c.group.fmts[1] == "channels_first" and \
       any(is_auto(c.q[s_], True) for s_ in ("depthwise", "pointwise")):
-    # before 5ab82ec the kernel was quantized AFTER expand_dims(., 0); under the channels_first switch the auto
+    # before 871ddb1 the kernel was quantized AFTER expand_dims(., 0); under the channels_first switch the auto
     # scale of the 4-D tensor is taken over other axes than that of the stored 3-D kernel
     return "expanded-kernel-auto-scale"
   if c.cls == "sepconv1d" and g["padding"] == "causal":
